@@ -578,25 +578,19 @@ def oracle_ensemble(case, obs):
                     add("start_inside_ranges", "AbstractEnsembleSolver._Solve", "member-not-started-at-its-point", [i, p, f])
                     break
         # --- every member is subject to the ensemble's settings (observable effects)
+        # (a configured nested INSTANCE keeps its own settings - the known finding - but the objective the ensemble hands it is the ensemble's
+        #  decorated one, so the ensemble's ranges, constraints and penalty still act on every evaluation: observable effects are claimed for it too)
+        sfx = ":configured-instance" if inst else ""
         if st["n_outside"]:
-            if inst:
-                out.append(fail("members_inherit_settings", INSTANCE_SITE, INSTANCE_PAT, "evaluations outside the ensemble's strict ranges"))
-            else:
-                add("members_inherit_settings", "AbstractEnsembleSolver.__get_solver_instance", "evaluated-outside-ranges", st["n_outside"])
+            add("members_inherit_settings", "AbstractEnsembleSolver.__get_solver_instance", "evaluated-outside-ranges" + sfx, st["n_outside"])
         if st["n_uncons"]:
-            if inst:
-                out.append(fail("members_inherit_settings", INSTANCE_SITE, INSTANCE_PAT, "evaluations violating the ensemble's constraints"))
-            else:
-                add("members_inherit_settings", "AbstractEnsembleSolver.__get_solver_instance", "evaluated-unconstrained", st["n_uncons"])
+            add("members_inherit_settings", "AbstractEnsembleSolver.__get_solver_instance", "evaluated-unconstrained" + sfx, st["n_uncons"])
         for i, m in enumerate(mem):
             b = m["bestX"]
             cands = [b] + ([cons_apply(case["cons"], b, lo, hi)] if case.get("cons") else [])
             vals = [raw_cost(c, case["cost"]) + pen_value(case.get("pen"), c, lo or st["lo_eff"], hi or st["hi_eff"]) for c in cands]
             if not any(_close(v, m["bestE"]) for v in vals):
-                if inst:
-                    out.append(fail("members_inherit_settings", INSTANCE_SITE, INSTANCE_PAT, "energy without the ensemble's penalty/constraints"))
-                else:
-                    add("members_inherit_settings", "AbstractEnsembleSolver.__get_solver_instance", "energy-without-penalty", [i, b, m["bestE"], vals])
+                add("members_inherit_settings", "AbstractEnsembleSolver.__get_solver_instance", "energy-without-penalty" + sfx, [i, b, m["bestE"], vals])
                 break
         bad = sorted(set(k for m in mem for k, v in m["inherit"].items() if not v))
         if bad:
